@@ -3,6 +3,7 @@ from . import tlc
 from .common import MachineryError
 
 RUNNER = {"quick": [("MC_PamsRunner_quick", 900)], "thorough": [("MC_PamsRunner_quick", 900), ("MC_PamsRunner_thorough", 5400)]}
+SYSTEM = {"quick": [], "thorough": [("MC_PamsSystem_quick", 1800)]}
 HALT = {"quick": [("MC_PamsHalt_quick", 900)], "thorough": [("MC_PamsHalt_quick", 900), ("MC_PamsHalt_fixed", 3600)]}
 TABLE_EVENTS = [("MC_TableEvents", 900)]
 # design models that MUST be rejected by TLC: the defective design found in the pinned tree (regression of the spec)
@@ -15,7 +16,9 @@ def plan(prop, tier):
     if prop == "C16":
         return HALT[tier] + TABLE_EVENTS
     if prop == "C09":
-        return RUNNER[tier] + HALT[tier]
+        return RUNNER[tier] + HALT[tier] + SYSTEM[tier]
+    if prop == "C05":
+        return RUNNER[tier] + SYSTEM[tier]
     return RUNNER[tier]
 
 
